@@ -265,3 +265,35 @@ func vh_value_count() {
 	}
 	vObserve("n", len(vExecLog))
 }
+
+// ---- the cache key ----
+//
+// Executions share a cache entry (and so a prepared id and its metadata) exactly when their keys are
+// equal. For one host and keyspace two statements that differ at all - also only in whitespace or letter
+// case, which are significant inside string literals and quoted identifiers - must get different keys;
+// the same statement on two hosts (ids are 36-character UUIDs) or in two keyspaces of equal length must
+// too. (Collisions from shifting characters between keyspace and statement are not claimed, see 13.4.)
+func vh_key_for() {
+	p := &preparedLRU{}
+	const h1, h2 = "00000000-0000-0000-0000-000000000001", "00000000-0000-0000-0000-000000000002"
+	pairs := [][2]string{
+		{"SELECT 'a  b'", "SELECT 'a b'"},
+		{"SELECT a ", "SELECT a"},
+		{" SELECT a", "SELECT a"},
+		{"SELECT\ta", "SELECT a"},
+		{"SELECT \"Col\" FROM t", "SELECT \"col\" FROM t"},
+		{"INSERT INTO t(a) VALUES ('x\n')", "INSERT INTO t(a) VALUES ('x ')"},
+	}
+	for _, pr := range pairs {
+		vAssert(p.keyFor(h1, "ks", pr[0]) != p.keyFor(h1, "ks", pr[1]), "C14/key/different-statements-different-entries")
+	}
+	vAssert(p.keyFor(h1, "ks", "SELECT a") != p.keyFor(h2, "ks", "SELECT a"), "C14/key/different-hosts-different-entries")
+	vAssert(p.keyFor(h1, "k1", "SELECT a") != p.keyFor(h1, "k2", "SELECT a"), "C14/key/different-keyspaces-different-entries")
+	vAssert(p.keyFor(h1, "ks", "SELECT a") == p.keyFor(h1, "ks", "SELECT a"), "C14/key/same-statement-same-entry")
+	// and for arbitrary short statements
+	s1, s2 := vString("s1", 3), vString("s2", 3)
+	if s1 != s2 {
+		vAssert(p.keyFor(h1, "ks", s1) != p.keyFor(h1, "ks", s2), "C14/key/different-statements-different-entries")
+	}
+	vObserve("same", s1 == s2)
+}
